@@ -70,6 +70,8 @@ pub struct Judge {
     pub protected: bool,
     /// C09/C02 style: results of API calls equal the model's
     pub results: bool,
+    /// C13: after every step exactly the tokens of the cached entries are alive
+    pub ledger: bool,
     /// accept the known order-sensitivity (rewired to an asset pending in the
     /// same batch) only as a specially signed violation, never silently
     pub classify_rewire: bool,
@@ -84,6 +86,7 @@ impl Judge {
             attribution: false,
             protected: false,
             results: false,
+            ledger: false,
             classify_rewire: true,
         }
     }
@@ -99,9 +102,20 @@ struct Tracked {
     value: V,
 }
 
+#[derive(Clone, Copy, Debug, PartialEq, Eq)]
+pub enum CacheKind {
+    /// `with_source` over a source that supports hot-reloading
+    Hot,
+    /// `without_hot_reloading`
+    Cold,
+    /// `with_source` over a source whose `make_source` returns `None`
+    NoSupport,
+    /// `with_source` over a source whose `configure_hot_reloading` fails
+    ConfigureFails,
+}
+
 pub struct WorldCfg {
-    /// `true` = hot cache (with reloader), `false` = `without_hot_reloading`
-    pub caches: Vec<bool>,
+    pub caches: Vec<CacheKind>,
     pub static_mode: bool,
     pub content_mode: u8,
 }
@@ -121,6 +135,7 @@ pub struct World {
     pub aborted: Option<String>,
     /// free-form identification of the case (history index, shard, ...) copied into scenarios
     pub tag: Value,
+    double_drops_at_start: u64,
     /// (cache, key, reload id, reloaded_global) of entries first seen since the last drain
     fresh_entries: Vec<(usize, Key, u64, bool)>,
 }
@@ -140,23 +155,31 @@ impl World {
         let mut real = vec![];
         let mut mc = vec![];
         let mark = ledger::mark();
-        for (i, hot) in cfg.caches.iter().enumerate() {
-            let mem = Mem::new(&format!("w{i}"), if *hot { Hot::Yes } else { Hot::No });
+        for (i, kind) in cfg.caches.iter().enumerate() {
+            let hot = *kind == CacheKind::Hot;
+            let mem = Mem::new(
+                &format!("w{i}"),
+                match kind {
+                    CacheKind::Hot | CacheKind::Cold => Hot::Yes,
+                    CacheKind::NoSupport => Hot::No,
+                    CacheKind::ConfigureFails => Hot::ConfigureFails,
+                },
+            );
             mem.set_content_mode(cfg.content_mode);
             mems.push(mem.clone());
-            let cache = if *hot {
-                AssetCache::with_source(mem)
-            } else {
+            let cache = if *kind == CacheKind::Cold {
                 AssetCache::without_hot_reloading(mem)
+            } else {
+                AssetCache::with_source(mem)
             };
-            if cfg.static_mode && *hot {
+            if cfg.static_mode && hot {
                 let leaked: &'static AssetCache<Mem> = Box::leak(Box::new(cache));
                 leaked.enhance_hot_reloading();
                 real.push(RealCache::Static(leaked));
             } else {
                 real.push(RealCache::Shared(cache));
             }
-            mc.push((*hot, Default::default()));
+            mc.push((hot, Default::default()));
         }
         let w = World {
             mems,
@@ -172,6 +195,7 @@ impl World {
             last_pass: None,
             aborted: None,
             tag: Value::Null,
+            double_drops_at_start: ledger::double_drops(),
             fresh_entries: vec![],
         };
         w.register();
@@ -272,6 +296,12 @@ impl World {
 
     /// Applies one step to the real caches and to the model and judges it.
     pub fn apply(&mut self, step: &Step, rep: &mut Report, j: &Judge) -> PassStats {
+        let st = self.apply_inner(step, rep, j);
+        self.ledger_check(rep, j);
+        st
+    }
+
+    fn apply_inner(&mut self, step: &Step, rep: &mut Report, j: &Judge) -> PassStats {
         self.steps_log.push(step.render());
         let mut stats = PassStats::default();
         if self.aborted.is_some() {
@@ -372,6 +402,9 @@ impl World {
                     .collect();
                 if !self.real[*c].is_hot() {
                     // nothing can be sent to a cache without reloader
+                    if self.mems[*c].has_sender() {
+                        self.bad(rep, j, "sender-without-reloader", json!({"cache": c}));
+                    }
                     return stats;
                 }
                 let messages: Vec<Vec<OwnedDirEntry>> = if *batched {
@@ -419,8 +452,9 @@ impl World {
     fn pass(&mut self, c: usize, rep: &mut Report, j: &Judge, pre: Option<u64>) -> PassStats {
         let mut stats = PassStats::default();
         if !self.real[c].is_hot() {
+            // nothing can have been sent; `hot_reload` must be a no-op and the
+            // judgement below (with an empty affected set) still runs
             self.pending[c].clear();
-            return stats;
         }
         self.track_all();
         let notified = std::mem::take(&mut self.pending[c]);
@@ -713,6 +747,39 @@ impl World {
         self.fresh_entries.clear();
         self.last_pass = Some(res);
         stats
+    }
+
+    /// C13: exactly the tokens owned by currently cached entries are alive, and
+    /// nothing was dropped twice since the world was created.
+    pub fn ledger_check(&mut self, rep: &mut Report, j: &Judge) {
+        if !j.ledger || self.aborted.is_some() {
+            return;
+        }
+        let mut expected: BTreeSet<usize> = BTreeSet::new();
+        for c in 0..self.real.len() {
+            let keys: Vec<Key> = self.model.caches[c].entries.keys().cloned().collect();
+            for k in keys {
+                if let Outcome::Ok(Some(o)) = self.real[c].get_cached(Fe::Direct, k.0, &k.1) {
+                    if let Some(t) = o.token {
+                        if !expected.insert(t) {
+                            self.bad(rep, j, "token-shared-by-two-entries", json!({"token": t}));
+                        }
+                    }
+                }
+            }
+        }
+        let live: BTreeSet<usize> = ledger::live_since(self.mark).into_iter().collect();
+        if live != expected {
+            let leaked: Vec<_> = live.difference(&expected).take(5).collect();
+            let dead: Vec<_> = expected.difference(&live).take(5).collect();
+            self.bad(rep, j, "ledger-imbalance", json!({"alive_but_not_in_cache": leaked, "in_cache_but_dropped": dead}));
+        }
+        let dd = ledger::double_drops();
+        if dd != self.double_drops_at_start {
+            self.bad(rep, j, "double-drop", json!({"double_drops": dd - self.double_drops_at_start}));
+            self.double_drops_at_start = dd;
+        }
+        rep.count("ledger_checks", 1);
     }
 
     /// Reads that happened on the reloader thread while no pass was running
